@@ -146,6 +146,25 @@ def iterate_ds(ds, r):
                 break
     r["_opened"] = opened
 
+    if iface == "paths_seq":
+        # several selections one after another on ONE handle, each with a fresh inline predicate
+        info = json.loads((ds.path / "dataset_info.json").read_text())
+        allp = []
+
+        def walk2(rel):
+            d = json.loads((ds.path / rel).read_text())
+            for sh in d.get("shard_files", []):
+                allp.append(str(ds.path / sh["file_infos"][0]["file_path"]))
+            for ch in d.get("children_shard_lists", []):
+                walk2(ch["shard_list_info_file"]["file_path"])
+        walk2(info["splits"][split]["shard_list_info_file"]["file_path"])
+        outs = []
+        for fv in r["filters"]:
+            try:
+                outs.append([allp.index(p) for p in ds.shard_paths_dataset(split=split, shard_filter=(None if fv is None else (lambda s, fv=fv: int(s.custom_metadata.get("k", 0)) == fv)))])
+            except ValueError:
+                outs.append("error")
+        return outs
     if iface == "paths":
         # the selection itself: indices (in depth-first order) of the shard files shard_paths_dataset returns
         info = json.loads((ds.path / "dataset_info.json").read_text())
